@@ -413,8 +413,10 @@ fn parent(prop_id: &str, tier: &str) -> i32 {
     let mut per_profile: BTreeMap<String, u64> = BTreeMap::new();
     let mut gen_defects: Vec<String> = vec![];
     let mut distinct_enum = 0u64;
+    let mut saturated = false;
     for r in &results {
         distinct_enum += r.distinct_by_construction;
+        saturated |= r.distinct_saturated;
         evals += r.evals;
         nontrivial_cases += r.nontrivial_cases;
         *per_profile.entry(r.profile.clone()).or_insert(0) += r.evals;
@@ -473,6 +475,12 @@ fn parent(prop_id: &str, tier: &str) -> i32 {
     });
     if !exhaustive_parts.is_empty() {
         coverage["exhaustive_parts"] = json!(exhaustive_parts);
+    }
+    if saturated {
+        coverage["distinct_nontrivial_is_lower_bound"] = json!(format!(
+            "at least one shard reached the cap of {} hashed cases; further non-trivial cases were executed and counted in nontrivial_cases_counted_with_duplicates but not in distinct_nontrivial",
+            engine::MAX_HASHES_PER_SHARD
+        ));
     }
     if (prop.exhaustive)(tier) && all_complete && violations.is_empty() {
         coverage["exhaustive"] = json!(true);
